@@ -57,4 +57,22 @@ pub(crate) mod verif_kani {
             assert!(it.pos == pos + 1);
         }
     }
+    /// bounded: register payloads of 1..=4 registers; the collected vector has one entry per register, each with the address
+    /// start+k and the big-endian value of bytes 2k, 2k+1 (checked at an arbitrary k)
+    #[kani::proof]
+    #[kani::unwind(6)]
+    pub(crate) fn k_register_collect_vec() {
+        const N: usize = 4;
+        let bytes: [u8; 2 * N] = kani::any();
+        let start: u16 = kani::any();
+        let count: u16 = kani::any();
+        kani::assume(count >= 1 && count as usize <= N && (start as u32) + (count as u32) <= 65536);
+        let it = RegisterIterator { bytes: &bytes[..2 * count as usize], range: AddressRange { start, count }, pos: 0 };
+        let v = it.collect_vec();
+        assert!(v.len() == count as usize);
+        let k: usize = kani::any();
+        kani::assume(k < count as usize);
+        assert!(v[k].index as u32 == start as u32 + k as u32);
+        assert!(v[k].value == (bytes[2 * k] as u16) * 256 + bytes[2 * k + 1] as u16);
+    }
 }
